@@ -186,6 +186,8 @@ func runC06(run *Run, replay string) {
 			}
 			scs = append(scs, lf)
 		}
+		// typing states of a value under every constraint kind (a share of the family per base), every offset of the value
+		scs = append(scs, valueFocusShare(bi, bases)...)
 		max := uint(100)
 		if bi%4 == 3 {
 			max = 3
